@@ -346,7 +346,10 @@ CHECKS["C16"] = dict(
          "its recorded state before the changed byte; every 47th case is re-evaluated from scratch), sector-atomic storage with "
          "preallocated zero-filled segments, os/fsync/rename, gogo unmarshalers mirrored for walpb.Record, raftpb.Entry/HardState, "
          "walpb.Snapshot, snappb.Snapshot (raftpb.ConfState opaque). Known finding wal/corrupt/type-byte: the CRC does not cover the "
-         "record type. A commit-only HardState is not fsynced by design (raft.MustSync); the oracle uses the code's own sync points.",
+         "record type. Known finding wal/torn-save/snapshot-with-entries: the record prefix a torn wal.Save of a Ready with a snapshot AND entries leaves "
+         "(entry record on disk, hard-state record lost) is read back correctly as records, but replayWAL cannot open it - ValidSnapshotEntries drops the "
+         "snapshot, ReadAll returns ErrSliceOutOfRange, the node dies on every start (model witness ReadyLoop.C08Ready.snapshot_with_entries_strands; "
+         "deterministic repro harness tornsave with a control case, run on every check). A commit-only HardState is not fsynced by design (raft.MustSync); the oracle uses the code's own sync points.",
 )
 
 CHECKS["C07"] = dict(
